@@ -829,6 +829,8 @@ func (e *Engine) finish(st *State, rs []Val) {
 	}
 	env := e.rootEnv(st, rs)
 	env.fr = nil
+	e.noAssume = true
+	defer func() { e.noAssume = false }()
 	for k, c := range e.con.get("ensures") {
 		g := e.evalSpecBool(st, e.entry, c.Expr, env)
 		lbl := c.Label
@@ -880,7 +882,7 @@ func (e *Engine) checkFrame(st *State, c *Clause, env *SpecEnv) {
 					al = append(al, allowed{prefix: "F:", idx: base.T, size: sizeOf(pt), cond: "true"})
 					al = append(al, allowed{prefix: "C:", idx: base.T, size: 1, cond: "true"})
 				case KIface:
-					al = append(al, allowed{prefix: "F:", idx: base.T, size: 256, cond: "true"})
+					al = append(al, allowed{prefix: "F:", idx: base.T, size: 1, cond: "true"})
 				case KSlice:
 					al = append(al, allowed{prefix: "E:", idx: base.T, cond: "true"})
 				case KMap:
@@ -918,7 +920,32 @@ func (e *Engine) checkFrame(st *State, c *Clause, env *SpecEnv) {
 		case SCall:
 			if id, ok := x.Fn.(SIdent); ok && id.Name == "deref" {
 				base := e.evalSpec(e.entry, e.entry, x.Args[0], env)
-				al = append(al, allowed{prefix: "F:", idx: base.T, size: 256, cond: "true"})
+				al = append(al, allowed{prefix: "F:", idx: base.T, size: 1, cond: "true"})
+			}
+		}
+	}
+	if st.epoch != 0 {
+		e.oblige(st, fmt.Sprintf("%s#assigns:<havoc>", e.fnShort()), "K3", "a callee without contract or frame ran: nothing is known about what it wrote ("+c.Text+")", "false", "return", c.Props)
+	}
+	for _, ph := range st.pending {
+		for _, k := range sortedKeys(ph.eff.Keys) {
+			touched := false
+			for key := range st.heap {
+				if strings.HasPrefix(key, k) {
+					touched = true
+				}
+			}
+			if !touched {
+				// written by a callee (inferred effect) but never inspected here: cannot be framed
+				okAll := false
+				for _, a := range al {
+					if a.idx == "" && strings.HasPrefix(k, a.prefix) {
+						okAll = true
+					}
+				}
+				if !okAll {
+					e.oblige(st, fmt.Sprintf("%s#assigns:%s<callee>", e.fnShort(), k), "K3", "a callee may write "+k+" ("+c.Text+")", "false", "return", c.Props)
+				}
 			}
 		}
 	}
